@@ -205,6 +205,8 @@ static void explore (OrcProgram * p, const VCallEntry * e, long caseidx)
       if (total < 70000) total *= a;
     }
     if (total > (thorough ? 70000 : 20000)) total = thorough ? 70000 : 20000;
+    /* resampling: start + n * increment has to stay inside the documented 31-bit position range */
+    for (i = 0; i < p->n_insns; i++) if (op_is_ldres (p->insns[i].opcode) && total > 3000) total = 3000;
     if (total < 64) total = 64;
     npc = have_param ? (thorough ? 8 : 4) : 1;
     for (pc = 0; pc < npc && !bad; pc++) {
